@@ -106,4 +106,20 @@ theorem blocked_write_failure_alone :
       [.write req1 (some 1), .write req1 (some 1), .call 1 id1 .writeErr] := by
   decide
 
+/-- F12 (known finding): the response arrives while `Start` is still inside its first `Connection.Write`; the handler
+    runs; the `Write` then fails and `Start` returns an error — "if Start returns an error the handler is never
+    invoked" does not hold on this schedule. (The agent no longer knows the id, so the error is a StopErr.) -/
+theorem f12_start_error_after_handler_ran :
+    (({} : Client2).step (.startBlocked id1 req1 1)).2.1 = none ∧
+    ((({} : Client2).step (.startBlocked id1 req1 1)).1.step (.deliverDecoded id1 resp1)).2.2 = [.call 1 id1 (.msg resp1)] ∧
+    (((({} : Client2).step (.startBlocked id1 req1 1)).1.step (.deliverDecoded id1 resp1)).1.step (.release false)).2.1
+      = some .stopErr := by
+  decide
+
+/-- without an intervening response the blocked first write behaves like the L1 Start: error, handler never invoked -/
+theorem start_blocked_failure_alone :
+    (({} : Client2).run [.startBlocked id1 req1 1, .release false, .l1 (.tick 900000000), .l1 .close]).2 =
+      [.write req1 (some 1), .connClose] := by
+  decide
+
 end Stun.C10L2
